@@ -1,0 +1,566 @@
+//go:build verif
+
+package executors
+
+import (
+	"encoding/json"
+	"fmt"
+	"sync"
+	"sync/atomic"
+	"testing"
+	"time"
+	"unsafe"
+
+	"github.com/gotid/god/internal/verifdrv"
+	"github.com/gotid/god/lib/threading"
+	"github.com/gotid/god/lib/timex"
+)
+
+// Thin interpreter for C16: drives BulkExecutor / ChunkExecutor (hence PeriodicalExecutor) with
+// scripted Add / Tick / Advance / Flush / Wait sequences and gated concurrent phases, and reports
+// what the execute callback received, stamped with a global sequence counter. No oracle logic.
+//
+// Determinism: the flusher's ticker is a driver-owned timex.Ticker (injected through the existing
+// newTicker field) whose Chan() method is evaluated by the flusher every time it (re-)enters its
+// select statement, and the container is wrapped by a delegating TaskContainer; together they let
+// the driver wait (condition variable, bounded) until the flusher is parked again.
+
+const (
+	verifInterval = time.Second
+	verifPatience = 4 * time.Second // only ever elapses when the code under test hangs
+)
+
+type verifOp struct {
+	Op      string      `json:"op"` // add | tick | advance | flush | wait | par | racetick | waitrace
+	ID      int         `json:"id"`
+	Size    int         `json:"size"`
+	N       int         `json:"n"`
+	Threads [][]verifOp `json:"threads"`
+	Pre     []verifOp   `json:"pre"`
+}
+
+type verifCase struct {
+	Chunk bool      `json:"chunk"`
+	Max   int       `json:"max"`
+	Ops   []verifOp `json:"ops"`
+}
+
+type verifAdd struct {
+	ID   int   `json:"id"`
+	Call int64 `json:"call"`
+	Ret  int64 `json:"ret"`
+}
+
+type verifCall struct {
+	Kind string `json:"kind"` // flush | wait
+	Call int64  `json:"call"`
+	Ret  int64  `json:"ret"`
+}
+
+type verifTick struct {
+	Seq       int64 `json:"seq"`
+	Delivered bool  `json:"delivered"`
+	Done      int64 `json:"done"`
+}
+
+type verifBatch struct {
+	IDs   []int `json:"ids"`
+	Start int64 `json:"start"`
+	End   int64 `json:"end"`
+}
+
+type verifPerOp struct {
+	NB      int  `json:"nb"`
+	Guarded bool `json:"guarded"`
+	Starts  int  `json:"starts"`
+	Stops   int  `json:"stops"`
+}
+
+// verifProbe collects the hook events of one case.
+type verifProbe struct {
+	mu   sync.Mutex
+	cond *sync.Cond
+	seq  int64
+
+	starts, selects, stops int
+	ticks, commands        int
+	removed, executedCnt   int // non-empty RemoveAll results / finished Execute calls
+	removeAlls             int
+	stopped                map[uint64]int // flusher goroutine -> 0 stopped, 1 deferred RemoveAll seen (empty), 2 (non-empty), 3 its Execute finished
+	cur                    *verifTicker
+
+	gateAdd   chan struct{} // non-nil: the next AddTask parks inside the critical section
+	inAddTask bool
+	hold      bool // execute callbacks park at entry
+	holdCh    chan struct{}
+
+	adds    []verifAdd
+	calls   []verifCall
+	tickObs []verifTick
+	batches []verifBatch
+}
+
+func (p *verifProbe) next() int64 { return atomic.AddInt64(&p.seq, 1) }
+
+func (p *verifProbe) bump(f func()) {
+	p.mu.Lock()
+	f()
+	p.cond.Broadcast()
+	p.mu.Unlock()
+}
+
+// until waits (bounded) for pred to hold; pred runs under p.mu.
+func (p *verifProbe) until(pred func() bool) bool { return p.untilFor(verifPatience, pred) }
+
+func (p *verifProbe) untilFor(patience time.Duration, pred func() bool) bool {
+	deadline := time.Now().Add(patience)
+	timer := time.AfterFunc(patience+time.Millisecond, func() { p.bump(func() {}) })
+	defer timer.Stop()
+	p.mu.Lock()
+	defer p.mu.Unlock()
+	for !pred() {
+		if time.Now().After(deadline) {
+			return false
+		}
+		p.cond.Wait()
+	}
+	return true
+}
+
+// quiet: every started flusher is parked in its select or has finished its deferred Flush, and every
+// non-empty batch taken out of the container has been executed.
+func (p *verifProbe) quiet() bool {
+	if p.selects+p.stops != p.starts+p.ticks+p.commands {
+		return false
+	}
+	if p.removed != p.executedCnt {
+		return false
+	}
+	for _, st := range p.stopped {
+		if st == 0 || st == 2 {
+			return false
+		}
+	}
+	return true
+}
+
+type verifTicker struct {
+	p      *verifProbe
+	c      chan time.Time
+	stopCh chan struct{}
+}
+
+func (t *verifTicker) Chan() <-chan time.Time {
+	t.p.bump(func() { t.p.selects++ })
+	return t.c
+}
+
+func (t *verifTicker) Stop() {
+	gid := threading.RoutineId()
+	t.p.bump(func() {
+		t.p.stops++
+		t.p.stopped[gid] = 0
+		close(t.stopCh)
+	})
+}
+
+// verifContainer delegates to the real container and reports the calls.
+type verifContainer struct {
+	p     *verifProbe
+	inner TaskContainer
+}
+
+func (c *verifContainer) AddTask(task any) bool {
+	c.p.mu.Lock()
+	gate := c.p.gateAdd
+	c.p.gateAdd = nil
+	if gate != nil {
+		c.p.inAddTask = true
+		c.p.cond.Broadcast()
+	}
+	c.p.mu.Unlock()
+	if gate != nil {
+		<-gate
+	}
+	full := c.inner.AddTask(task)
+	if full {
+		c.p.bump(func() { c.p.commands++ })
+	}
+	return full
+}
+
+func (c *verifContainer) RemoveAll() any {
+	vals := c.inner.RemoveAll()
+	n := 0
+	if vs, ok := vals.([]any); ok {
+		n = len(vs)
+	}
+	gid := threading.RoutineId()
+	c.p.bump(func() {
+		c.p.removeAlls++
+		if n > 0 {
+			c.p.removed++
+		}
+		if st, ok := c.p.stopped[gid]; ok && st == 0 {
+			if n > 0 {
+				c.p.stopped[gid] = 2
+			} else {
+				c.p.stopped[gid] = 1
+			}
+		}
+	})
+	return vals
+}
+
+func (c *verifContainer) Execute(tasks any) {
+	c.inner.Execute(tasks)
+	gid := threading.RoutineId()
+	c.p.bump(func() {
+		c.p.executedCnt++
+		if st, ok := c.p.stopped[gid]; ok && st == 2 {
+			c.p.stopped[gid] = 3
+		}
+	})
+}
+
+type verifRig struct {
+	p     *verifProbe
+	pe    *PeriodicalExecutor
+	add   func(id, size int)
+	flush func()
+	wait  func()
+	hung  string
+	// guarded was seen true with no flusher ever starting
+	orphan bool
+}
+
+func verifNewRig(c verifCase) *verifRig {
+	p := &verifProbe{stopped: map[uint64]int{}}
+	p.cond = sync.NewCond(&p.mu)
+	r := &verifRig{p: p}
+	execute := func(tasks []any) {
+		start := p.next()
+		p.mu.Lock()
+		var ch chan struct{}
+		if p.hold {
+			ch = p.holdCh
+		}
+		p.mu.Unlock()
+		if ch != nil {
+			<-ch
+		}
+		ids := make([]int, len(tasks))
+		for i, t := range tasks {
+			ids[i] = t.(int)
+		}
+		p.bump(func() {
+			p.batches = append(p.batches, verifBatch{IDs: ids, Start: start, End: p.next()})
+		})
+	}
+	if c.Chunk {
+		ce := NewChunkExecutor(execute, WithChunkBytes(c.Max), WithFlushInterval(verifInterval))
+		r.pe = ce.executor
+		r.add = func(id, size int) { ce.Add(id, size) }
+		r.flush, r.wait = ce.Flush, ce.Wait
+	} else {
+		be := NewBulkExecutor(execute, WithBulkTasks(c.Max), WithBulkInterval(verifInterval))
+		r.pe = be.executor
+		r.add = func(id, size int) { be.Add(id) }
+		r.flush, r.wait = be.Flush, be.Wait
+	}
+	r.pe.container = &verifContainer{p: p, inner: r.pe.container}
+	r.pe.newTicker = func(time.Duration) timex.Ticker {
+		t := &verifTicker{p: p, c: make(chan time.Time), stopCh: make(chan struct{})}
+		p.bump(func() {
+			p.starts++
+			p.cur = t
+		})
+		return t
+	}
+	return r
+}
+
+func (r *verifRig) settle(what string) bool {
+	p := r.p
+	if !p.until(p.quiet) {
+		r.setHung(what + ": not quiescent")
+		return false
+	}
+	// a flusher whose start was decided under the lock (guarded) may not have been scheduled yet
+	var guarded bool
+	r.pe.Sync(func() { guarded = r.pe.guarded })
+	if guarded && !r.orphan {
+		// unflagged (observed through starts/stops); waited for at most once per case
+		if !p.untilFor(verifPatience/4, func() bool { return p.starts > p.stops }) {
+			r.orphan = true
+		}
+		if !p.until(p.quiet) {
+			r.setHung(what + ": not quiescent")
+			return false
+		}
+	}
+	return true
+}
+
+// bounded runs f in its own goroutine and waits for it (a hang of the code under test is an observation).
+func (r *verifRig) bounded(what string, f func()) bool {
+	done := make(chan struct{})
+	go func() {
+		defer close(done)
+		f()
+	}()
+	select {
+	case <-done:
+		return true
+	case <-time.After(verifPatience):
+		r.setHung(what + ": did not return")
+		return false
+	}
+}
+
+// doAdd records the call before and the return after the real Add (Ret stays 0 if it never returns).
+func (r *verifRig) doAdd(id, size int) {
+	p := r.p
+	var k int
+	p.bump(func() {
+		k = len(p.adds)
+		p.adds = append(p.adds, verifAdd{ID: id, Call: p.next()})
+	})
+	r.add(id, size)
+	p.bump(func() { p.adds[k].Ret = p.next() })
+}
+
+func (r *verifRig) doCall(kind string) {
+	p := r.p
+	var k int
+	p.bump(func() {
+		k = len(p.calls)
+		p.calls = append(p.calls, verifCall{Kind: kind, Call: p.next()})
+	})
+	if kind == "wait" {
+		r.wait()
+	} else {
+		r.flush()
+	}
+	p.bump(func() { p.calls[k].Ret = p.next() })
+}
+
+func (r *verifRig) setHung(s string) {
+	r.p.bump(func() {
+		if r.hung == "" {
+			r.hung = s
+		}
+	})
+}
+
+func (r *verifRig) isHung() bool {
+	r.p.mu.Lock()
+	defer r.p.mu.Unlock()
+	return r.hung != ""
+}
+
+// deliver hands one tick to the live flusher's ticker, if there is one.
+func (r *verifRig) deliver() bool {
+	p := r.p
+	p.mu.Lock()
+	t := p.cur
+	p.mu.Unlock()
+	if t == nil {
+		return false
+	}
+	select {
+	case <-t.stopCh:
+		return false
+	default:
+	}
+	select {
+	case t.c <- time.Now():
+		p.bump(func() { p.ticks++ })
+		return true
+	case <-t.stopCh:
+		return false
+	case <-time.After(verifPatience):
+		r.setHung("tick: live flusher never took it")
+		return false
+	}
+}
+
+func (r *verifRig) doTick(settle bool) {
+	p := r.p
+	seq := p.next()
+	ok := r.deliver()
+	if settle {
+		r.settle("tick")
+	}
+	done := p.next()
+	p.bump(func() { p.tickObs = append(p.tickObs, verifTick{Seq: seq, Delivered: ok, Done: done}) })
+}
+
+func (r *verifRig) simple(op verifOp, settle bool) {
+	switch op.Op {
+	case "add":
+		r.doAdd(op.ID, op.Size)
+	case "flush", "wait":
+		r.doCall(op.Op)
+	case "tick":
+		r.doTick(settle)
+	case "advance":
+		timex.VerifAdvance(time.Duration(op.N) * verifInterval)
+	}
+}
+
+func (r *verifRig) barrierHeld() bool {
+	mu := (*sync.Mutex)(unsafe.Pointer(&r.pe.wgBarrier)) // syncx.Barrier is struct{ lock sync.Mutex }
+	if mu.TryLock() {
+		mu.Unlock()
+		return false
+	}
+	return true
+}
+
+func (r *verifRig) run(i int, op verifOp) {
+	p := r.p
+	what := fmt.Sprintf("op#%d %s", i, op.Op)
+	switch op.Op {
+	case "add", "flush", "wait":
+		if r.bounded(what, func() { r.simple(op, false) }) {
+			r.settle(what)
+		}
+	case "tick", "advance":
+		r.simple(op, true)
+	case "par":
+		gate := make(chan struct{})
+		var wg sync.WaitGroup
+		for _, th := range op.Threads {
+			th := th
+			wg.Add(1)
+			go func() {
+				defer wg.Done()
+				<-gate
+				for _, o := range th {
+					r.simple(o, false)
+				}
+			}()
+		}
+		close(gate)
+		if r.bounded(what, wg.Wait) {
+			r.settle(what)
+		}
+	case "racetick":
+		// Add(id) is parked inside its critical section (in AddTask) while the flusher takes a tick;
+		// then the Add goes on. A legal interleaving of one Add with one tick.
+		gate := make(chan struct{})
+		p.bump(func() { p.gateAdd = gate; p.inAddTask = false })
+		done := make(chan struct{})
+		go func() {
+			defer close(done)
+			r.doAdd(op.ID, op.Size)
+		}()
+		if !p.until(func() bool { return p.inAddTask }) {
+			r.setHung(what + ": Add never reached AddTask")
+		}
+		r.doTick(false)
+		close(gate)
+		select {
+		case <-done:
+			r.settle(what)
+		case <-time.After(verifPatience):
+			r.setHung(what + ": Add did not return")
+		}
+	case "waitrace":
+		// pre: adds that fill a batch whose execution is held; then Add(ID) returns (task in the
+		// container), a concurrent Add(N) takes [ID,N] out towards the flusher, and Wait is called.
+		p.bump(func() { p.hold = true; p.holdCh = make(chan struct{}) })
+		for _, o := range op.Pre {
+			r.bounded(what, func() { r.simple(o, false) })
+		}
+		r.bounded(what, func() { r.doAdd(op.ID, op.Size) })
+		addDone := make(chan struct{})
+		go func() {
+			defer close(addDone)
+			r.doAdd(op.N, op.Size)
+		}()
+		deadline := time.Now().Add(verifPatience)
+		for len(r.pe.commander) == 0 && time.Now().Before(deadline) {
+			time.Sleep(time.Millisecond)
+		}
+		p.mu.Lock()
+		ra := p.removeAlls
+		p.mu.Unlock()
+		waitDone := make(chan struct{})
+		go func() {
+			defer close(waitDone)
+			r.doCall("wait")
+		}()
+		p.until(func() bool { return p.removeAlls > ra })
+		for !r.barrierHeld() && time.Now().Before(deadline) {
+			time.Sleep(time.Millisecond)
+		}
+		// let the held batch finish; keep the next one parked until Wait has been seen to return (or not)
+		p.mu.Lock()
+		old := p.holdCh
+		p.holdCh = make(chan struct{})
+		p.mu.Unlock()
+		close(old)
+		select {
+		case <-waitDone:
+		case <-time.After(verifPatience / 4):
+		}
+		p.mu.Lock()
+		p.hold = false
+		old = p.holdCh
+		p.mu.Unlock()
+		close(old)
+		for _, ch := range []chan struct{}{addDone, waitDone} {
+			select {
+			case <-ch:
+			case <-time.After(verifPatience):
+				r.setHung(what + ": did not return")
+			}
+		}
+		r.settle(what)
+	}
+}
+
+func TestVerifDriver(t *testing.T) {
+	verifdrv.Run(t, func(raw json.RawMessage) any {
+		var c verifCase
+		if err := json.Unmarshal(raw, &c); err != nil {
+			return map[string]any{"error": err.Error()}
+		}
+		timex.VerifSetNow(time.Hour)
+		r := verifNewRig(c)
+		p := r.p
+		perop := make([]verifPerOp, 0, len(c.Ops))
+		for i, op := range c.Ops {
+			if !r.isHung() {
+				r.run(i, op)
+			}
+			var po verifPerOp
+			if !r.isHung() {
+				r.pe.Sync(func() { po.Guarded = r.pe.guarded })
+			}
+			p.mu.Lock()
+			po.NB, po.Starts, po.Stops = len(p.batches), p.starts, p.stops
+			p.mu.Unlock()
+			perop = append(perop, po)
+		}
+		p.mu.Lock()
+		defer p.mu.Unlock()
+		if p.hold { // never leave executions parked
+			p.hold = false
+			close(p.holdCh)
+		}
+		nz := func(n int) int {
+			if n < 0 {
+				return 0
+			}
+			return n
+		}
+		return map[string]any{
+			"adds": append([]verifAdd{}, p.adds...), "calls": append([]verifCall{}, p.calls...),
+			"ticks": append([]verifTick{}, p.tickObs...), "batches": append([]verifBatch{}, p.batches...),
+			"perop": perop, "hung": r.hung, "pending": nz(len(r.pe.commander)),
+		}
+	})
+}
